@@ -131,7 +131,11 @@ impl Stats {
             *self.labels.entry(k).or_insert(0) += v;
         }
         for (k, v) in o.extra {
-            self.max_extra(&k, v);
+            if k.starts_with("audit:") {
+                *self.extra.entry(k).or_insert(0.0) += v;
+            } else {
+                self.max_extra(&k, v);
+            }
         }
         for (k, (n, ex, d)) in o.failures {
             let e = self.failures.entry(k).or_insert((0, ex.clone(), d.clone()));
@@ -169,6 +173,12 @@ pub trait Prop: Sync {
     fn decode(&self, t: &mut Tape, env: &Env, st: &mut Stats) -> Option<Self::Case>;
     /// id of an active known finding whose trigger this case contains (then it is not evaluated)
     fn excluded(&self, _c: &Self::Case, _env: &Env) -> Option<String> {
+        None
+    }
+    /// subset of `excluded` that is applied BEFORE the oracle (findings whose trigger is precise and
+    /// frequent: excluded by construction). The other findings are applied only to failing cases,
+    /// after shrinking: see `eval`.
+    fn excluded_up_front(&self, _c: &Self::Case, _env: &Env) -> Option<String> {
         None
     }
     fn check(&self, c: &Self::Case, env: &Env, st: &mut Stats) -> Verdict;
@@ -253,11 +263,35 @@ pub fn read_inflight(path: &Path) -> Option<Value> {
     serde_json::from_slice(&b[8..8 + n]).ok()
 }
 
+pub fn trigger_audit() -> bool {
+    static A: std::sync::OnceLock<bool> = std::sync::OnceLock::new();
+    *A.get_or_init(|| std::env::var("VERIF_TRIGGER_AUDIT").is_ok_and(|v| v == "1"))
+}
+
 pub fn survey_mode() -> bool {
     std::env::var("VERIF_SURVEY").is_ok_and(|v| v != "0" && !v.is_empty())
 }
 
-/// Evaluate one case: bookkeeping + oracle. Returns the failure if any.
+/// VERIF_EXCLUDE_UP_FRONT=1 restores the first implementation: every input that contains the trigger
+/// of an active finding is excluded before the oracle runs.
+fn exclude_all_up_front() -> bool {
+    static A: std::sync::OnceLock<bool> = std::sync::OnceLock::new();
+    *A.get_or_init(|| std::env::var("VERIF_EXCLUDE_UP_FRONT").is_ok_and(|v| v == "1"))
+}
+
+/// Evaluate one case: bookkeeping + oracle. Returns the failure if any, together with a reduced case
+/// when the failure had to be separated from a known finding.
+///
+/// Known findings (counting mode, i.e. the search itself): the few findings with a precise, frequent
+/// trigger are excluded up front (`excluded_up_front`). For all others the oracle runs first. A
+/// failing case that contains the trigger of an active finding is then SHRUNK (same failure signature,
+/// triggers ignored) and looked at again: if the minimal failing form still contains a trigger the
+/// failure is that finding's (counted as `known_finding_hit:<id>`); if it does not, the trigger was
+/// incidental -- somewhere else in a large document -- and the failure is a new violation. An input is
+/// thus no longer lost to the search merely because it contains a trigger somewhere.
+///
+/// Non-counting mode (candidates while a violation is being shrunk): every trigger excludes, as before,
+/// so reduction never drifts from a new violation into a known finding.
 fn eval<P: Prop>(
     p: &P,
     c: &P::Case,
@@ -265,11 +299,22 @@ fn eval<P: Prop>(
     st: &mut Stats,
     inflight: &mut Inflight,
     counting: bool,
-) -> Option<Failure> {
+) -> Option<(Failure, Option<P::Case>)> {
+    let judge_after = counting && !exclude_all_up_front();
     if !env.strict {
-        if let Some(id) = p.excluded(c, env) {
+        let ex = if judge_after { p.excluded_up_front(c, env) } else { p.excluded(c, env) };
+        if let Some(id) = ex {
             if counting {
                 st.skip(&format!("excluded_by_known_finding:{id}"));
+                // development aid (VERIF_TRIGGER_AUDIT=1): how many of the excluded cases really fail?
+                if trigger_audit() {
+                    let mut scratch = Stats::default();
+                    let failed = matches!(p.check(c, env, &mut scratch), Verdict::Fail(_));
+                    *st.extra.entry(format!("audit:{id}:excluded")).or_insert(0.0) += 1.0;
+                    if failed {
+                        *st.extra.entry(format!("audit:{id}:failing")).or_insert(0.0) += 1.0;
+                    }
+                }
             }
             return None;
         }
@@ -301,7 +346,28 @@ fn eval<P: Prop>(
             if counting {
                 st.evaluations += 1;
             }
-            Some(f)
+            if judge_after && !env.strict && p.excluded(c, env).is_some() {
+                // separate the failure from the known findings: shrink, then look for triggers again
+                let sig = f.sig.clone();
+                let mut budget = 1500u32;
+                let mut fails = |cand: &P::Case| -> bool {
+                    if budget == 0 {
+                        return false;
+                    }
+                    budget -= 1;
+                    let mut sc = Stats::default();
+                    matches!(p.check(cand, env, &mut sc), Verdict::Fail(f2) if f2.sig == sig)
+                };
+                let reduced = p.reduce(c, env, &mut fails);
+                return match p.excluded(&reduced, env) {
+                    Some(id) => {
+                        st.skip(&format!("known_finding_hit:{id}"));
+                        None
+                    }
+                    None => Some((f, Some(reduced))),
+                };
+            }
+            Some((f, None))
         }
     }
 }
@@ -342,7 +408,7 @@ pub fn shrink_and_report<P: Prop>(p: &P, c: P::Case, f: Failure, env: &Env, orig
         budget -= 1;
         let mut st = Stats::default();
         match eval(p, cand, env, &mut st, &mut dummy_inflight, false) {
-            Some(f2) => f2.sig == sig,
+            Some((f2, _)) => f2.sig == sig,
             None => false,
         }
     };
@@ -377,7 +443,8 @@ pub fn run_worker<P: Prop>(p: &P, env: &Env, w: usize, nw: usize, outdir: &Path)
     while i < n {
         if let Some(c) = p.sweep_case(i, env) {
             st.swept += 1;
-            if let Some(f) = eval(p, &c, env, &mut st, &mut inflight, true) {
+            if let Some((f, reduced)) = eval(p, &c, env, &mut st, &mut inflight, true) {
+                let c = reduced.unwrap_or(c);
                 if survey {
                     record_survey_typed::<P>(&c, &f, &mut survey_cases.borrow_mut());
                     record_survey(p, &c, f, &mut st);
@@ -413,10 +480,16 @@ pub fn run_worker<P: Prop>(p: &P, env: &Env, w: usize, nw: usize, outdir: &Path)
         let mut runner = TestRunner::new(cfg);
         let strat = proptest::collection::vec(proptest::num::u8::ANY, 0..p.tape_max());
         let first_sig: std::cell::RefCell<Option<String>> = std::cell::RefCell::new(None);
+        // a failure that had to be separated from known findings comes with its reduced case: that
+        // case is reported, the tape is not shrunk (its smaller neighbours drift into the findings)
+        let judged: std::cell::RefCell<Option<P::Case>> = std::cell::RefCell::new(None);
         let st_cell = std::cell::RefCell::new(&mut st);
         let infl_cell = std::cell::RefCell::new(&mut inflight);
         let res = runner.run(&strat, |tape| {
             let shrinking = first_sig.borrow().is_some();
+            if shrinking && judged.borrow().is_some() {
+                return Ok(());
+            }
             let mut st = st_cell.borrow_mut();
             let mut infl = infl_cell.borrow_mut();
             let mut t = Tape::new(&tape);
@@ -434,7 +507,8 @@ pub fn run_worker<P: Prop>(p: &P, env: &Env, w: usize, nw: usize, outdir: &Path)
             let Some(c) = c else { return Ok(()) };
             match eval(p, &c, env, &mut st, &mut infl, !shrinking) {
                 None => Ok(()),
-                Some(f) => {
+                Some((f, reduced)) => {
+                    let c = reduced.clone().unwrap_or(c);
                     if shrinking {
                         if first_sig.borrow().as_deref() == Some(f.sig.as_str()) {
                             Err(TestCaseError::fail(f.sig))
@@ -447,6 +521,9 @@ pub fn run_worker<P: Prop>(p: &P, env: &Env, w: usize, nw: usize, outdir: &Path)
                         Ok(())
                     } else {
                         *first_sig.borrow_mut() = Some(f.sig.clone());
+                        if reduced.is_some() {
+                            *judged.borrow_mut() = Some(c);
+                        }
                         Err(TestCaseError::fail(f.sig))
                     }
                 }
@@ -457,7 +534,11 @@ pub fn run_worker<P: Prop>(p: &P, env: &Env, w: usize, nw: usize, outdir: &Path)
         if let Err(TestError::Fail(_, tape)) = res {
             let mut t = Tape::new(&tape);
             let mut scratch = Stats::default();
-            if let Some(c) = p.decode(&mut t, env, &mut scratch) {
+            let final_case = match judged.borrow_mut().take() {
+                Some(c) => Some(c),
+                None => p.decode(&mut t, env, &mut scratch),
+            };
+            if let Some(c) = final_case {
                 let mut sc = Stats::default();
                 if let Verdict::Fail(f) = p.check(&c, env, &mut sc) {
                     violation = Some(shrink_and_report(p, c, f, env, "generated"));
